@@ -207,11 +207,23 @@ Fixpoint gated_obs (l : list Z) : bool :=
   | _ => true
   end.
 
-Fixpoint sm_monitor_from (i : Z) (ops : list sop) (tr : list obs) : option (Z * obs) :=
+Fixpoint written_ids (l : list Z) : list Z :=
+  match l with
+  | _ :: id :: _ :: l' => id :: written_ids l'
+  | _ => []
+  end.
+
+(* 812 a request was reported as sent (sendMessage returned nil) but it is on no connection's list of written messages *)
+Fixpoint sm_monitor_from (acked : list Z) (i : Z) (ops : list sop) (tr : list obs) : option (Z * obs) :=
   match ops, tr with
-  | SWrites :: ops', (_ :: l) :: tr' => if gated_obs l then sm_monitor_from (i + 1) ops' tr' else Some (i, [811])
-  | _ :: ops', _ :: tr' => sm_monitor_from (i + 1) ops' tr'
+  | SWrites :: ops', (_ :: l) :: tr' =>
+      if negb (gated_obs l) then Some (i, [811])
+      else if negb (forallb (fun a => existsb (Z.eqb a) (written_ids l)) acked) then Some (i, [812])
+      else sm_monitor_from acked (i + 1) ops' tr'
+  | SSend r :: ops', ob :: tr' =>
+      sm_monitor_from (match ob with [_; a] => if a =? 0 then acked else rq_id r :: acked | _ => acked end) (i + 1) ops' tr'
+  | _ :: ops', _ :: tr' => sm_monitor_from acked (i + 1) ops' tr'
   | [], [] => None
   | _, _ => Some (i, [897])
   end.
-Definition sm_monitor : checker sop := fun ops tr => sm_monitor_from 0 ops tr.
+Definition sm_monitor : checker sop := fun ops tr => sm_monitor_from [] 0 ops tr.
